@@ -3,8 +3,8 @@
 # Confirms in a scratch worktree: builds (with/without hooks), existing tests pass with the mutation,
 # the demonstration fails with the mutation and passes without it.
 d=$1; tag=$2
-W=/tmp/confirm_wt
-export CARGO_TARGET_DIR=/tmp/confirm_target CARGO_NET_OFFLINE=true
+W=/tmp/confirm_wt_${CONFIRM_ID:-0}
+export CARGO_TARGET_DIR=/tmp/confirm_target_${CONFIRM_ID:-0} CARGO_NET_OFFLINE=true
 [ -d $W ] || git -C /repo worktree add -q --detach $W HEAD
 git -C $W checkout -q --detach $(git -C /repo rev-parse HEAD); git -C $W checkout -q -- .; git -C $W clean -fdq
 cd $W
